@@ -14,14 +14,14 @@ from . import common
 PROP = "C11"
 LEVEL = "model_checking"
 RULE = (
-    "X-SEQ on the live compiler, two explorations over an alphabet of 16 compile requests chosen so that every piece of process-wide state named in the "
+    "X-SEQ on the live compiler, two explorations over an alphabet of 18 compile requests chosen so that every piece of process-wide state named in the "
     "property's anchors is written by one request and read by another (verbose / compact output of one source; a directive-carrying "
     "source; two sources with the same constexpr call text but different function bodies and one with an identical helper script; a "
     "source that prints a positive prefab hash and large integers, i.e. the lazily built hash set; device alias / reference-id / Stack "
     "sources that touch the module-level device singletons; sources that assign / read the named registers sp, ra, r7; a source that aborts with an error in the middle of code generation; a "
     "multi-module source).  (1) Every history of length <= 2 (quick) / <= 3 (thorough; at most 2 steps when a constexpr request is "
     "involved) runs in its own fork of a pristine parent process that has imported the package but never compiled.  (2) Long "
-    "histories: the de Bruijn sequence B(16, 3) (quick, 4096 steps) / B(16, 4) (thorough, 65536 steps), in which every window of 3 / 4 "
+    "histories: the de Bruijn sequence B(18, 3) (quick, 5832 steps) / B(18, 4) (thorough, 104976 steps), in which every window of 3 / 4 "
     "consecutive requests occurs, is run from 8 (quick) / 16 (thorough) different start offsets, each in one fork, with the options objects and source "
     "mappings reused throughout.  After EACH step of every history: "
     "result == the fresh-process oracle of that request (computed in 3 separate processes with different PYTHONHASHSEED, which must "
@@ -73,6 +73,9 @@ def requests():
         # a constexpr function returning a list: indexed at run time (jump table) by one program, iterated by another
         "cxlist-index": (CXL + "tb = table()\ndb.Setting = tb[d0.Setting]\n", {}),
         "cxlist-loop": (CXL + "for v in table():\n    db.On = v\n", {}),
+        # the device singletons themselves bound to names / wrapped with alias=True, then used plainly by another program
+        "dev-var": ("x = d0\nx.Setting = 1\ndv = Device(d2, alias=True)\ndv.On = x.On\nst = Stack(d0)\nst[1] = 2\n", {}),
+        "dev-plain": ("db.Setting = d0.Setting + d2.On\nd0.On = stack[1]\nd2.Setting = 3\n", {"compact": True}),
         "sp-read": ("d0.Setting = sp\nd1.Setting = r7\nra = pop()\n", {}),
     }
     return R
